@@ -245,6 +245,11 @@ func getPrevSnapshot(testID, snapPath string) (string, int, error) {
 }
 
 func addNewSnapshot(testID, snapshot, snapPath string) error {
+	// appending must not interleave with updateSnapshot's read-truncate-write of
+	// the same file, otherwise the appended snapshot is overwritten by a stale copy
+	_m.Lock()
+	defer _m.Unlock()
+
 	if err := os.MkdirAll(filepath.Dir(snapPath), os.ModePerm); err != nil {
 		return err
 	}
